@@ -24,6 +24,7 @@ def check(run):
     run.rule('ACC.guard', acc.RULES['ACC.guard'])
     run.rule('ACC.pair', acc.RULES['ACC.pair'])
     run.rule('ACC.order', acc.RULES['ACC.order'])
+    run.rule('ACC.exit', acc.RULES['ACC.exit'])
     run.rule('ACC.nocapture', acc.RULES['ACC.nocapture'])
     for cfg in configs(run):
         F = run.facts(cfg)
